@@ -1,0 +1,25 @@
+//! Scheduling points for the deterministic scheduler of the /verif harness.
+//! Compiled only with `--cfg undermoon_verif`. `point(label)` is called immediately before
+//! every shared-memory access of `proxy::blocking` and `common::biatomic`. By default it does
+//! nothing; a test harness installs a callback that parks the calling thread until a
+//! controller releases it, which makes the interleaving of those accesses an input.
+use parking_lot::RwLock;
+use std::sync::Arc;
+
+pub type PointCallback = Arc<dyn Fn(&'static str) + Send + Sync>;
+
+static CALLBACK: RwLock<Option<PointCallback>> = parking_lot::const_rwlock(None);
+
+/// Installs (or removes, with `None`) the global callback.
+pub fn set_callback(callback: Option<PointCallback>) {
+    *CALLBACK.write() = callback;
+}
+
+/// A scheduling point. The callback is cloned out of the lock before it is called,
+/// so a callback that blocks never holds the lock.
+pub fn point(label: &'static str) {
+    let callback = CALLBACK.read().clone();
+    if let Some(callback) = callback {
+        callback(label);
+    }
+}
